@@ -95,12 +95,13 @@ PLAN = {
         "jobs": [
             {"monitor": "c06_diff", "variant": "rel", "shards": 16},
             {"monitor": "c06_diff", "variant": "dbg", "shards": 8},
+            {"monitor": "c06_subst_ids", "variant": "rel", "shards": 4, "parallel": 4, "nondeterministic": True},
             # operator / operand-order key mix-ups for the other kinds: different operators (and swapped operands) on the
             # same operands back-to-back on one manager with caches of 1..4096 entries
             {"monitor": "c10_dd", "variant": "rel", "shards": 16},
             {"monitor": "c11_exh", "variant": "rel", "shards": 16},
         ],
-        "require_counters": {"all": ["replays", "gcs_that_freed"]},
+        "require_counters": {"all": ["replays", "gcs_that_freed", "substitutions_created"]},
     },
     "C14": {
         "level": "fault_enumeration",
@@ -119,10 +120,12 @@ PLAN = {
             {"monitor": "c14_sweep", "variant": "rel", "shards": 16},
             {"monitor": "c14_sweep", "variant": "dbg", "shards": 16},
             {"monitor": "c14_aborts", "variant": "rel", "shards": 2},
+            {"monitor": "c14_import", "variant": "rel", "shards": 16},
+            {"monitor": "c14_import", "variant": "dbg", "shards": 8},
             # MTBDD: terminal and inner capacities of 3..6 entries (OutOfMemory returned, store usable again after gc)
             {"monitor": "c10_dd", "variant": "rel", "shards": 16},
         ],
-        "require_counters": {"all": ["capacities_with_oom", "retries_succeeded"]},
+        "require_counters": {"all": ["capacities_with_oom", "retries_succeeded", "import_capacities_with_oom"]},
     },
     "C04": {
         "level": "exploration",
@@ -276,6 +279,8 @@ PLAN = {
             {"monitor": "c07_sched_rand", "variant": "dbg", "shards": 8},
             {"monitor": "c07_sched_dfs", "variant": "rel", "shards": 12},
             {"monitor": "c07_mtbdd", "variant": "rel", "shards": 16},
+            # operations while OxiDD's own background collector runs (repeatedly) alongside
+            {"monitor": "c05_bg", "variant": "rel", "shards": 16},
             {"monitor": "c07_mtbdd", "variant": "dbg", "shards": 8},
             {"monitor": "c07_mtbdd", "variant": "tsan", "shards": 8, "nondeterministic": True},
             {"monitor": "c07_stress", "variant": "rel", "shards": 16, "parallel": 4, "nondeterministic": True},
